@@ -195,3 +195,51 @@ def run(prog):
     if n_lbl == 0:
         res.viol("label-offsets/anchor", "parser/src/cfg/error.rs", "no SourceSpan construction found")
     return res
+
+
+def rule_own_text(prog):
+    """R-SPAN-OWN-TEXT (C03, C16): a span is only ever applied to the text of the file it was lexed from.
+
+    A Span carries byte offsets into one file plus that file's content. With `include`, items of several files sit in
+    one list; applying a span to the *main* file's text (which happens to be at hand) slices an unrelated fragment, or
+    panics when the included file is longer than the main one / the offset falls inside a multi-byte character - a
+    configuration that is accepted as one file kills the parser once its layers are moved into an included file.
+
+    Rule: every `text[span]` (`Index<Span>` on str / String) in the parser crate takes its text from
+    `span.file_content()` of the same span; the lexer-driven parse loop, which slices the text it is lexing with the
+    spans the lexer just produced for it, is the one reviewed exception."""
+    res = RuleResult("R-SPAN-OWN-TEXT", "text[span] slices the content of the span's own file", floor=2)
+    LEXER_LOOP = {"kanata_parser::cfg::sexpr::parse_with": "slices the text being lexed with the token spans its own lexer yields for that text"}
+    for f in prog.fns.values():
+        if f.crate != "kanata_parser" or f.derive:
+            continue
+        k = 0
+        for bi, t in f.calls():
+            cn = t.get("r") or callee_name(t) or ""
+            if "Index<kanata_parser::cfg::sexpr::Span>" not in cn or len(t["args"]) < 2:
+                continue
+            R = Resolver(f)
+            base, idx = R.root(t["args"][0]), R.root(t["args"][1])
+            key = "%s/index%s" % (f.norm.split("::{closure")[0].split("::")[-1], "#%d" % k if k else "")
+            k += 1
+            how = None
+            ok = False
+            if base[0] == "call" and (callee_name(base[1][1]) or "").endswith("Span::file_content") and base[1][1]["args"]:
+                own = R.root(base[1][1]["args"][0])
+                same = (own[0] == idx[0] and (own[1] == idx[1] or (own[0] == "call" and own[1][0] == idx[1][0]))
+                        and [x[2] for x in own[2]][-1:] == [x[2] for x in idx[2]][-1:])
+                ok, how = same, "file_content() of %s span" % ("the same" if same else "ANOTHER")
+            elif f.norm.split("::{closure")[0] in LEXER_LOOP:
+                ok, how = True, "reviewed: " + LEXER_LOOP[f.norm.split("::{closure")[0]]
+            else:
+                how = "text that does not come from the span (%s)" % base[0]
+            res.fn(f)
+            res.inst(key, where="%s:%s" % (f.file, t.get("ln")), text=how, ok=ok)
+            res.oblige(ok)
+            if not ok:
+                res.viol(key, "%s:%s" % (f.file, t.get("ln")),
+                         "%s applies a span to %s. Spans of items that came from an included file hold offsets into that file: "
+                         "applied to another text they cut out an unrelated fragment or panic (byte index out of bounds / not a char "
+                         "boundary), so moving layers into an included file turns an accepted configuration into a crash"
+                         % (f.norm.split("::{closure")[0].split("::")[-1], how))
+    return res
